@@ -102,8 +102,8 @@ func checkValueLookup(r *Run, prog *Program, a *Anchors, pfx string) {
 		if len(lf.gets) == 0 {
 			// resolved (or rejected) by a local variable before any lookup in the datum
 			seenClasses["local"]++
-			ok := (pv && ec == "nil") || (!pv && ec == "nonnil")
-			r.Check(pfx+".lookup", "local-variable-return", pos, ok, "a return before the datum lookup must be (value, true, nil) or (·, false, error); got present="+present.Key()+" err="+ec+trail)
+			ok := (pv && ec == "nil" && isFieldOfValue(val, "value")) || (!pv && ec == "nonnil")
+			r.Check(pfx+".lookup", "local-variable-return", pos, ok, "a return before the datum lookup must be (the bound value of a key/index binding, true, nil) or (·, false, error) — anything else resolves a selector without pointerstructure's tag name / hook; got ("+shortKey(val)+", "+present.Key()+", "+ec+")"+trail)
 			continue
 		}
 		g1 := lf.gets[0]
